@@ -43,9 +43,7 @@ FMT = {"coo": "COO", "gcxs": "GCXS", "dok": "DOK"}
 CLAUSES = {
     1: ("representation", None), 2: ("value", None), 3: ("value", "result_not_wellformed_sparse"),
     4: ("value", "mixed_fills_not_rejected"),
-    11: ("value", "gcxs_joiner_axis_None"), 12: ("value", "extract_input_not_COO"),
     15: ("value", "diagonal_nonsquare"),
-    18: ("value", "concatenate_axis_None_DOK_member"), 19: ("value", "stack_0d_non_COO_member"),
 }
 
 
@@ -199,28 +197,6 @@ def impl_extract(case):
     return out
 
 
-def py_clause(c):
-    """the named domain clause a case falls under (mirror of the clause logic of Corr/C09Judge.v; used
-    only when the Coq judge is unavailable)"""
-    if "fn" in c:
-        fm = [m["format"] for m in c["members"]]
-        nd = len(c["members"][0]["shape"])
-        if c["axis"] is None and all(f == "gcxs" for f in fm):
-            return "gcxs_joiner_axis_None"
-        if c["fn"] != "stack" and c["axis"] is None and "dok" in fm:
-            return "concatenate_axis_None_DOK_member"
-        if c["fn"] == "stack" and nd == 0 and any(f != "coo" for f in fm):
-            return "stack_0d_non_COO_member"
-        return None
-    if c["op"] in ("triu", "tril", "diagonal") and c["x"]["format"] != "coo":
-        return "extract_input_not_COO"
-    if c["op"] == "diagonal":
-        sh = c["x"]["shape"]
-        if sh[c["axis1"]] != sh[c["axis2"]]:
-            return "diagonal_nonsquare"
-    return None
-
-
 def impl_any(case):
     return impl_join(case) if "fn" in case else impl_extract(case)
 
@@ -274,6 +250,38 @@ def join_cases(tier, rng):
                                 caxes = sorted(rng.sample(range(nd_out), k))
                             name = fn if (fn == "stack" or rng.random() < 0.7) else "concat"
                             cases.append({"fn": name, "axis": axis, "caxes": caxes, "members": ms, "tag": kind})
+    # members that do not fit (an off-axis extent differs / ndim differs / shapes differ for stack): NumPy raises
+    for _ in range(40 if tier == "quick" else 200):
+        nd = rng.randint(1, 3)
+        n = rng.randint(2, 4)
+        base = [rng.choice((1, 2, 3)) for _ in range(nd)]
+        fmts = _format_mix(rng, n, rng.choice(["coo", "gcxs", "dok", "mix"]))
+        fn = rng.choice(["concatenate", "stack", "concat"])
+        axis = rng.randrange(-nd, nd)
+        bad = rng.randrange(n)
+        ms = []
+        for i in range(n):
+            sh = list(base)
+            if i == bad:
+                how = rng.choice(["extent", "ndim"])
+                if how == "ndim":
+                    sh = sh + [rng.choice((1, 2))] if rng.random() < 0.5 or nd == 1 else sh[:-1]
+                else:
+                    others = [a for a in range(nd) if fn == "stack" or a != axis % nd]
+                    if not others:
+                        sh = sh + [2]
+                    else:
+                        a = rng.choice(others)
+                        sh[a] += rng.choice((1, 2))
+            ms.append(_member(rng, sh, fmts[i], 0))
+        cases.append({"fn": fn, "axis": axis, "caxes": None, "members": ms, "tag": "mismatch"})
+    # directed: members with a single leading row stacked along a late axis (entries arrive member-major,
+    # the constructor has to sort), and along every axis of 2-/3-d members
+    for sh in ([1, 2], [1, 3], [1, 2, 2], [1, 1, 3], [2, 1, 2]):
+        for axis in range(-len(sh) - 1, len(sh) + 1):
+            for fmt in ("coo", "gcxs"):
+                ms = [_member(rng, sh, fmt, 0, density=rng.choice([0.7, 1.0])) for _ in range(rng.choice([2, 3]))]
+                cases.append({"fn": "stack", "axis": axis, "caxes": None, "members": ms, "tag": "single-leading-row"})
     # mixed fills must be rejected
     for _ in range(40 if tier == "quick" else 200):
         nd = rng.randint(1, 3)
@@ -470,9 +478,12 @@ def campaign(build, tier, seed, report, budget=1):
     rng = random.Random(seed)
     viol = []
     tags = {}
-    # the judge is not a dependency of Props/C09.vo: (re)build it against the regenerated Gen/ files
-    judge_ok, out = build.make(["Corr/C09Judge.vo"], timeout=900)
-    judge_err = None if judge_ok else out[-1500:]
+    # the judge is not a dependency of Props/C09.vo: (re)build it against the regenerated Gen/ files.  When it
+    # does not build (the source left the shape the extractor pins), check.py re-runs this campaign with the
+    # reference model (committed Gen/) to find a concrete failing input.
+    ok, out = build.make(["Corr/C09Judge.vo"], timeout=900)
+    if not ok:
+        raise vlib.CoqEvalError("Corr/C09Judge.vo does not build:\n" + out[-1500:])
 
     def tag(t):
         tags[t] = tags.get(t, 0) + 1
@@ -485,27 +496,6 @@ def campaign(build, tier, seed, report, budget=1):
         ec += extract_cases(tier, rng2)
     allr = vlib.run_impl("props.c09", "impl_any", jc + ec, workers=6)     # one pool: the JIT warm-up is paid once
     jr, er = allr[:len(jc)], allr[len(jc):]
-    if not judge_ok:
-        # the model no longer compiles against the regenerated Gen/ files (the source left the shape the
-        # extractor pins): search for a concrete failing input with the NumPy cross-check alone
-        for c, r in zip(jc + ec, allr, strict=True):
-            if r is None or "res" not in r:
-                viol.append({"property": "C09", "op": c.get("fn", c.get("op")), "kind": "value", "clause": "hang_or_crash",
-                             "case": c, "impl": r, "replay_py": replay_join(c) if "fn" in c else replay_extract(c)})
-            elif r.get("np_ok") is False or isinstance(r.get("np_ok"), str):
-                op = c.get("op") or ("stack" if c["fn"] == "stack" else "concatenate")
-                viol.append({"property": "C09", "op": op, "kind": "value", "clause": py_clause(c),
-                             "case": c, "impl": r["res"], "note": "NumPy cross-check (the Coq judge does not build)",
-                             "replay_py": replay_join(c) if "fn" in c else replay_extract(c)})
-        if not viol:
-            viol.append({"property": "C09", "op": "judge", "kind": "representation", "clause": "judge_does_not_build",
-                         "case": {}, "impl": judge_err, "replay_py": "print('Corr/C09Judge.v does not build')"})
-        report["coverage"].update({"evaluations": len(allr), "distinct_nontrivial": 0,
-                                   "rule": "Coq judge unavailable: NumPy cross-check only", "samples": [],
-                                   "branch_tags": {}})
-        report.setdefault("notes", []).append("Corr/C09Judge.vo does not build: " + (judge_err or "")[-400:])
-        return viol
-
     def failed(r):
         return r is None or "res" not in r
 
@@ -539,9 +529,13 @@ def campaign(build, tier, seed, report, budget=1):
         fills = {s["fill"] for s in c["members"]}
         fm = {s["format"] for s in c["members"]}
         nd = len(c["members"][0]["shape"]) + (1 if c["fn"] == "stack" else 0)
-        path = "gcxs-joiner" if fm == {"gcxs"} and len(c["members"][0]["shape"]) != 1 else "coo-joiner"
+        nd_in = 1 if c["axis"] is None else len(c["members"][0]["shape"])
+        low = nd_in <= 1 if c["fn"] == "stack" else nd_in == 1
+        path = "gcxs-joiner" if fm == {"gcxs"} and not low else "coo-joiner"
         if len(fills) > 1:
             tag("join/mixed-fill")
+        elif c["tag"] == "mismatch":
+            tag(f"join/shape-mismatch/{'raises-' + str(r['res'].get('cls')) if r['res'].get('k') == 'exc' else 'returns'}")
         elif r["res"].get("k") == "exc":
             tag(f"join/{path}/raises-{r['res'].get('cls')}")
         elif path == "coo-joiner":
